@@ -555,10 +555,14 @@ def c12_10(ctx):
         for items, has_annex in shapes:
             w = Obj("witness", "Witness", {"items": list(items)})
             ev = Evaluator(ctx.repo, opaque=opaque, externals={"BytesIO": lambda x: x},
-                           method_hooks={("ControlBlock", "parse"): lambda *a, **k: ("cb", a[-1] if a else None), ("Script", "parse"): lambda *a, **k: ("script", a[-1] if a else None)})
+                           method_hooks={("ControlBlock", "parse"): lambda *a, **k: ("cb", a[-1] if a else None),
+                                         ("Script", "parse"): lambda *a, **k: Obj("script", "Script", {"from_": a[-1] if a else None, "raw": None, "commands": []}),
+                                         ("Script", "raw_serialize"): lambda o: o.attrs["from_"][1] if isinstance(o.attrs.get("from_"), tuple) else o.attrs.get("from_")})
             ctx.count("cells")
             try:
                 got = ev.call(spec, [], self_obj=w)
+                if isinstance(got, Obj) and "from_" in got.attrs:
+                    got = ("script", got.attrs["from_"])
             except Undecided as u:
                 bad = ("err", "%s not evaluable: %s" % (meth, u))
                 break
@@ -889,7 +893,42 @@ def c12_21(ctx):
 
 
 
+def c12_22(ctx):
+    """the leaf script of a script-path witness is hashed as the bytes it has IN THE WITNESS: Witness.tap_script() evaluated on leaf scripts with
+    minimal pushes and with the same pushes spelled non-minimally (OP_PUSHDATA1 / OP_PUSHDATA2 for a 32-byte key, OP_PUSHDATA1 for one byte) --
+    the script object returned serialises (raw_serialize, which TapLeaf.hash and the BIP341 digest use) to exactly the witness item.  A parser
+    that re-encodes the pushes makes `4c 20 <key> ac` hash like `20 <key> ac`: a spend whose leaf script differs from the committed one is
+    reported valid"""
+    from sa.cells import Evaluator, Obj, Raised, Undecided
+    spec = "witness:Witness.tap_script"
+    mod, fn = rl.get(ctx, spec)
+    key = bytes(range(1, 33))
+    cb = b"\xc0" + bytes(32)
+    scripts = [("minimal push", b"\x20" + key + b"\xac"), ("OP_PUSHDATA1 for the 32-byte key", b"\x4c\x20" + key + b"\xac"), ("OP_PUSHDATA2 for the 32-byte key", b"\x4d\x20\x00" + key + b"\xac"),
+               ("OP_PUSHDATA1 for a 1-byte element", b"\x4c\x01\x07\x87"), ("only opcodes", b"\x51\x87")]
+    try:
+        for label, raw in scripts:
+            for annex in (False, True):
+                ctx.count("cells")
+                items = [b"sig", raw, cb] + ([b"\x50\xaa"] if annex else [])
+                try:
+                    ev = Evaluator(ctx.repo, max_steps=1000000)
+                    sc = ev.call(spec, [], self_obj=Obj("witness", "Witness", {"items": items}))
+                    back = ev.call("script:Script.raw_serialize", [], self_obj=sc)
+                except Raised as x:
+                    return [ctx.bad(spec, "the leaf script %s (%s) cannot be taken from the witness: %s" % (raw.hex()[:16] + "…", label, x.name), fn, mod, key="leaf-bytes")]
+                if back != raw:
+                    return [ctx.bad(spec, "a leaf script written with %s (%s…) comes back as %s…: the leaf hash, the Merkle root and the BIP341 digest are computed over other bytes than the "
+                                          "witness holds, so a spend whose leaf script is not the committed one verifies" % (label, raw.hex()[:12], back.hex()[:12] if isinstance(back, bytes) else back),
+                                    fn, mod, key="leaf-bytes")]
+    except Undecided as u:
+        return [ctx.err(spec, "Witness.tap_script not evaluable: %s" % u, fn, mod)]
+    return [ctx.ok(spec, "%d leaf scripts (minimal and non-minimal pushes, with and without annex) serialise to the witness item byte for byte" % (2 * len(scripts)), fn, mod, key="leaf-bytes")]
+
+
+
 OBLIGATIONS = [
+    ("C12.22", "CELLS leaf bytes", c12_22),
     ("C12.21", "CELLS control block equality", c12_21),
     ("C12.20", "CELLS compact size (shared)", c12_20),
     ("C12.17", "CELLS control block length", c12_17),
